@@ -185,6 +185,16 @@ pub fn wasm(sink: &mut Sink, seed: u64, thorough: bool, alphabet: &str, behaviou
         let id = sink.id();
         sink.emit(&wasm_svg_event(id, "wasmenum:margin", contents[m % 2], &[WCall::Margin(m)]));
     }
+    // image size x gap x position grids with an image set: zero, fractional, larger than the symbol (values that coincide with 'unset' on the JS side)
+    for (i, size) in [0.25f64, 1.0, 5.0, 9.0, 30.0].into_iter().enumerate() { for (j, gap) in [0.0f64, 0.25, 1.0, 3.0].into_iter().enumerate() {
+        for (k, pos) in [vec![], vec![0.0, 0.0], vec![12.5, 7.0]].into_iter().enumerate() {
+            if !thorough && (i + j + k) % 2 == (seed % 2) as usize && gap != 0.0 { continue; }
+            let mut prog = vec![WCall::Image("logo.png".to_string()), WCall::ImageSize(size, gap)];
+            if !pos.is_empty() { prog.push(WCall::ImagePosition(pos)); }
+            let id = sink.id();
+            sink.emit(&wasm_svg_event(id, "wasmenum:imagesize", contents[(i + j) % 2], &prog));
+        }
+    } }
     // longer seeded programs over concrete pools
     for i in 0..(if thorough { 4000 } else { 600 }) {
         let len = r.gen_range(1..9);
